@@ -339,6 +339,12 @@ def eval_case(ctx, case, props):
         for i in range(len(objs)):
             if i not in (m, s) and after[i] != before[i]:
                 problems.append(f'an element not named in the call (index {i}) changed')
+        # the self-locking flag is written by a worm mating, for its worm, and by nothing else: a later declaration
+        # naming the worm (its joint to the driver, a re-declaration) leaves the relation it already has as declared
+        for i in (m, s):
+            if not (d[0] == 'worm' and i == post['worm']) and after[i][5] != before[i][5]:
+                problems.append(f'the self-locking flag of element {i} went from {before[i][5]} to {after[i][5]} in a call that is '
+                                'not a worm mating of that worm')
         if problems:
             ctx.violation(case, {'why': f'call {di} {d}: ' + '; '.join(problems), 'after': after})
             return
